@@ -5,6 +5,7 @@ constructor variants; each grid is evaluated through jax.vmap(metric.evaluate_ex
 row by row with the docstring-derived reference (mc/ref/metrics_ref.py).
 """
 import itertools
+import json
 
 import numpy as np
 
@@ -159,8 +160,46 @@ def identities(case):
   return {'evals': len(rows) * 3, 'nontrivial': True, 'outcome': [float(np.sum(acc[1]))]}
 
 
-SUBS = {'grid': grid, 'identities': identities}
-TIMEOUTS = {'grid': 600, 'identities': 300}
+def jit_path(case):
+  """metrics.evaluate_batch is jitted with the metric object as a static (hashed/compared) argument. A group of
+  metric objects that differ in exactly ONE constructor field is evaluated one after another, in one process, on the
+  same batch shapes: each must still equal its own reference (a field missing from hash/eq would make a later object
+  silently reuse the computation traced for an earlier one)."""
+  import jax.numpy as jnp
+  from fedjax.core import metrics
+  specs = case['specs']
+  fam, c, l = case['family'], case['C'], case.get('L')
+  if fam == 'cls':
+    rows = [(t, s) for s in cls_scores(c, with_inf=False)[:12] for t in range(c)]
+  else:
+    mats = [np.array(m, np.float64).reshape(l, c).tolist() for m in itertools.product((-1.0, 0.0, 1.0), repeat=l * c)][::7]
+    rows = [(list(t), m) for m in mats for t in itertools.product(range(c), repeat=l)]
+  ys = np.asarray([r[0] for r in rows], np.int32)
+  preds = np.asarray([r[1] for r in rows], np.float32)
+  mask = np.arange(len(rows)) % 5 != 4
+  evals = 0
+  for rnd in range(2):  # second round: every object is evaluated again after all the others were traced
+    for spec in specs:
+      m = mr.build(spec)
+      st = mr.stat_arrays(metrics.evaluate_batch(m, {'y': jnp.asarray(ys)}, jnp.asarray(preds), jnp.asarray(mask)))
+      want = None
+      for r, keep in zip(rows, mask):
+        if not keep:
+          continue
+        one = mr.ref_stat(spec, {'y': np.asarray(r[0])}, r[1])
+        want = one if want is None else mr.ref_merge(want, one)
+      for nm, g, w in zip(('accum', 'weight'), st[1:], want[1:]):
+        g, w = np.asarray(g, np.float64), np.asarray(w, np.float64)
+        require(g.shape == w.shape and bool(np.all(np.abs(g - w) <= 1e-4 * (1 + np.abs(w)))),
+                'evaluate_batch(%s): %s differs from the sum of the reference single-example statistics (evaluated after '
+                'sibling objects that differ in one constructor field)' % (json.dumps(spec), nm), w.tolist(), g.tolist(),
+                case=dict(case, failing=spec))
+      evals += 1
+  return {'evals': evals, 'nontrivial': True, 'outcome': [fam, len(specs)]}
+
+
+SUBS = {'grid': grid, 'identities': identities, 'jit_path': jit_path}
+TIMEOUTS = {'grid': 600, 'identities': 300, 'jit_path': 900}
 
 
 def decode_case(case):
@@ -233,4 +272,26 @@ def plan(ctx):
       cases.append({'spec': spec, 'family': 'seq', 'C': c, 'L': l, 'stride': stride})
   ctx.pmap('grid', cases, chunk=4)
   ctx.run('identities', [{'C': 2}, {'C': 3}, {'C': 4}])
+  lm3 = [None, [0.0, 0.0, '-inf'], ['-inf', 0.0, 0.0], [0.0, '-inf', 0.0]]
+  groups = [
+      ('seq', 3, 2, [{'name': 'SequenceTokenAccuracy', 'logits_mask': lm} for lm in lm3]),
+      ('seq', 3, 2, [{'name': 'SequenceTokenTopKAccuracy', 'k': 2, 'logits_mask': lm} for lm in lm3]),
+      ('seq', 3, 2, [{'name': 'SequenceTokenTopKAccuracy', 'k': k} for k in (0, 1, 2, 3)]),
+      ('seq', 3, 2, [{'name': 'SequenceTokenAccuracy', 'masked_target_values': mv} for mv in ([], [0], [0, 2], [1])]),
+      ('seq', 3, 2, [{'name': 'SequenceTokenAccuracy', 'per_position': pp} for pp in (False, True)]),
+      ('seq', 3, 2, [{'name': 'SequenceTokenCrossEntropyLoss', 'masked_target_values': mv, 'per_position': pp}
+                     for mv in ([0], [1]) for pp in (False, True)]),
+      ('seq', 3, 2, [{'name': 'SequenceTokenOOVRate', 'oov_target_values': o} for o in ([1], [2], [1, 2])]),
+      ('seq', 3, 2, [{'name': 'SequenceTruncationRate', 'eos_target_value': e} for e in (0, 1, 2)]),
+      ('seq', 3, 2, [{'name': 'SequenceTokenCount', 'masked_target_values': mv} for mv in ([], [0], [2])]),
+      ('seq', 3, 2, [{'name': 'SequenceLength', 'masked_target_values': mv} for mv in ([], [0], [2])]),
+      ('cls', 3, None, [{'name': 'TopKAccuracy', 'k': k} for k in (0, 1, 2, 3)]),
+      ('cls', 3, None, [{'name': 'PerDomainMetric', 'base': {'name': 'TopKAccuracy', 'k': k}, 'num_domains': 2} for k in (1, 2)]),
+  ]
+  jc = []
+  for fam, c, l, specs in groups:
+    if fam == 'cls' and specs[0]['name'] == 'PerDomainMetric':
+      continue  # needs a domain feature: covered by the grid sub-space
+    jc.append({'family': fam, 'C': c, 'L': l, 'specs': specs})
+  ctx.pmap('jit_path', jc, chunk=1)
   ctx.extra['bounds'] = {'classes': [2, 3], 'seq_shapes_LxC': shapes, 'metric_objects': len(cases)}
